@@ -166,6 +166,10 @@ def families(rng):
         # a commented CONTAINER as the sole / only member of the wrapper
         F['commented-container-in-%s' % cname] = (lambda n, wrap=wrap: nest(n, lambda v, i: wrap(c([v, i], '%d item(s)' % i), i)))
         F['trailing-container-in-%s' % cname] = (lambda n, wrap=wrap: nest(n, lambda v, i: wrap(tcm([v], 'tail %d' % i), i)))
+        # the wrapper ITSELF carries a trailing comment / a comment at every level (printers that take trailing_comment
+        # and printers that do not)
+        F['trailing-on-%s' % cname] = (lambda n, wrap=wrap: nest(n, lambda v, i: tcm(wrap(v, i), 'tail %d' % i)))
+        F['comment-on-%s' % cname] = (lambda n, wrap=wrap: nest(n, lambda v, i: c(wrap(v, i), 'note %d' % i)))
     # seeded random wrapper recipes
     wrappers = [lambda v, i: [v], lambda v, i: {'k': v}, lambda v, i: (v, i), lambda v, i: H(v),
                 lambda v, i: [c(v, 'c')], lambda v, i: {'k': c(v, 'c')}, lambda v, i: {'a': 1, 'b': v, 'c': 3},
